@@ -13,6 +13,7 @@ import (
 	"os"
 	"syscall"
 	"time"
+	"unsafe"
 
 	"github.com/basecomplextech/baselibrary/verifsim/simrt"
 )
@@ -95,6 +96,10 @@ type dialFault struct {
 }
 
 var cur *Net
+
+// ioSync models the happens-before edge the Go runtime draws from every socket write to
+// every later socket read (internal/poll does the same with its own ioSync) for the race detector.
+var ioSync byte
 
 func init() {
 	simrt.OnReset(func() { cur = nil })
@@ -462,6 +467,7 @@ func (c *Conn) Read(b []byte) (int, error) {
 			}
 			c.pending -= got
 			c.Received += int64(got)
+			simrt.RaceAcquire(unsafe.Pointer(&ioSync))
 			if n.TapRead != nil {
 				n.TapRead(c.pair.ID, 1-c.dir(), b[:got])
 			}
@@ -548,6 +554,7 @@ func (c *Conn) Write(b []byte) (int, error) {
 }
 
 func (c *Conn) deliver(data []byte) {
+	simrt.RaceRelease(unsafe.Pointer(&ioSync))
 	n := c.pair.n
 	p := c.peer
 	c.Sent += int64(len(data))
